@@ -293,3 +293,41 @@ Example C01_refinement_comments_total_nonvacuous :
   accepts (run SpecCmt.g_cmt SpecCmt.c_skip (orc_of SpecCmt.t_cmt1) false 194 SpecCmt.in_cmt1) = true.
 Proof. exact SpecCmtTotal.cmt_total_nonvacuous. Qed.
 Print Assumptions C01_refinement_comments_total_nonvacuous.
+
+From TxV Require Proofs.SpecUg.
+
+(* Unordered groups.  Class wfgu: as wfg, plus unordered groups WITHOUT separator (and without eolterm) all of
+   whose members are productive (decidable).  There the interpreter's ug_loop and the reference clause agree:
+   each round takes the first remaining member that matches, the group succeeds exactly when every member was
+   matched once.  Same conclusion as C01_refinement_partial (if the interpreter terminates). *)
+Theorem C01_refinement_unordered :
+  forall g pf c orc fuel input,
+    wfgu g pf = true -> orc_pos orc ->
+    match run g c orc false fuel input with
+    | Parsed r =>
+      exists ts p, spec_run g c orc fuel input = SOk ts p /\
+                   (nosep g = true -> erase_all ts = flatten r) /\
+                   exists tsq, spec_run_q g c orc fuel input = SOk tsq p /\ erase_all tsq = flatten r
+    | SyntaxErr _ => spec_run g c orc fuel input = SFail
+    | Aborted _ => True
+    end.
+Proof. exact SpecUg.refinement_u. Qed.
+Print Assumptions C01_refinement_unordered.
+
+Example C01_refinement_unordered_nonvacuous :
+  wfgu SpecUg.g_ug 24 = true /\ wfg SpecUg.g_ug 24 = false /\
+  accepts (run SpecUg.g_ug c_default (orc_of [((0,4),1)]) false 50 [109;32;98;32;51;32;97]%N) = true /\
+  saccepts (spec_run SpecUg.g_ug c_default (orc_of [((0,4),1)]) 50 [109;32;98;32;51;32;97]%N) = true /\
+  accepts (run SpecUg.g_ug c_default (orc_of [((0,4),1)]) false 50 [109;32;98;32;97]%N) = false.
+Proof. exact SpecUg.ug_in_class. Qed.
+Print Assumptions C01_refinement_unordered_nonvacuous.
+
+(* boundary: a group WITH separator - Model: ('a' 'b')#[','] 'b'?; on "a b" the interpreter fails the group when
+   the separator is missing, the reference clause ends it (its reading is the laxer one here) *)
+Theorem C01_unordered_separator_refuted :
+  exists g c orc fuel input,
+    wfgu g 24 = false /\
+    saccepts (spec_run g c orc fuel input) = true /\
+    run g c orc false fuel input = SyntaxErr 2.
+Proof. exists SpecUg.g_ugsep, c_default, (fun _ _ => None), 50, [97;32;98]%N. exact SpecUg.refuted_ugsep. Qed.
+Print Assumptions C01_unordered_separator_refuted.
